@@ -28,11 +28,13 @@ type linOut struct {
 }
 
 // the sequential specification: a deque of byte strings.
-//   Enqueue(x)  : s -> s ++ [x]
-//   Requeue(x)  : s -> [x] ++ s
-//   Dequeue     : [] -> nil ; x:s -> x, s
-//   DequeueAll  : [] -> nil ; s -> concat(s), []
-//   GetDepth    : len(s)
+//
+//	Enqueue(x)  : s -> s ++ [x]
+//	Requeue(x)  : s -> [x] ++ s
+//	Dequeue     : [] -> nil ; x:s -> x, s
+//	DequeueAll  : [] -> nil ; s -> concat(s), []
+//	GetDepth    : len(s)
+//
 // The state is immutable (a fresh slice per step).
 var dequeModel = porcupine.Model{
 	Init: func() interface{} { return []string(nil) },
